@@ -29,10 +29,11 @@ type Profile struct {
 	FeedsMax    int // number of live feeds to start (0..FeedsMax)
 	MultiHandle bool
 	Extra       []ExtraAction
-	Setup       func(r *Run)                 // runs right after the world is created (also in replays)
-	Finish      func(r *Run)                 // extra end-of-history checks
-	JSONBody    func(rt *rapid.T) []byte     // overrides the generator of JSON bodies
-	Config      func(rt *rapid.T, c *Config) // adjusts the generated world configuration
+	Prefix      func(rt *rapid.T, r *Run) []Op // steps every history starts with
+	Setup       func(r *Run)                   // runs right after the world is created (also in replays)
+	Finish      func(r *Run)                   // extra end-of-history checks
+	JSONBody    func(rt *rapid.T) []byte       // overrides the generator of JSON bodies
+	Config      func(rt *rapid.T, c *Config)   // adjusts the generated world configuration
 }
 
 var defaultKeys = []string{"a", "b", "kéy", "c"}
